@@ -105,6 +105,11 @@ def check(w):
         if s["ntoks"] == [1] * len(s["ntoks"]) or not quick:
             for rv in ("client", "daemon"):
                 scen.append(dict(s, recv=rv, mode="freeze", batch=True, lnkdir=True))
+    # ... and with set-user-ID / set-group-ID / sticky bits on the replaced files
+    for s in base:
+        if "replace" in s["kinds"] and (s["ntoks"] == [1] * len(s["ntoks"]) or not quick):
+            for rv in ("client", "daemon"):
+                scen.append(dict(s, recv=rv, mode="freeze", batch=True, special=True))
     for i, s in enumerate(scen):
         s["id"] = i + 1
     obs, summ = run(w, scen, "freeze")
